@@ -14,7 +14,9 @@ RULE = ("P1: in exact rationals TLC checks the code-shaped trapezoid rule (inter
         "whose first tableau rows coincide without being exact: every level of the budget is used. Cubics at level "
         "budgets 8, 12, 16, 17, 18, 20 with tolerance 0 must be integrated exactly (Inv_RombergExact holds for every "
         "budget); the crate is built with overflow checks. Sample tables of 1024, 1025, 2049, 2500 and 3000 points. "
-        "trapz and quad5 also on an axis rescaled by 2^-60 and 2^30. Case class = (rule, degree class, interval "
+        "trapz and quad5 also on an axis rescaled by 2^-60 and 2^30. Every Romberg case again in threads of their own: "
+        "first thing, after calls with level budgets 2, 3, k-1, and after a call with budget k+3 - the three answers "
+        "agree bit for bit and with the tableau value (the rule has no memory of earlier budgets). Case class = (rule, degree class, interval "
         "orientation, panel/level class).")
 ASSUMPTIONS = ["polynomial integrands with small integer coefficients and dyadic limits (exact rational oracle); the catalogue of transcendental integrands is not reached",
                "tolerance 2^-40 of the integral's magnitude scale (measured margin > 1e4, DESIGN appendix D)"]
